@@ -94,7 +94,47 @@ def linear(t):
         return {x: v * k for x, v in a.items()}, ca * k
     if h == 'cast':
         return linear(t[2])
+    if h == 'call' and isinstance(t[1], str) and t[1].endswith('::len') and len(t[2]) == 1:
+        # length of a sub-slice taken with an explicit range: buf[a..b].len() = b - a (through `?` / unwrap / Some-payload wrappers)
+        r = _subslice_range(t[2][0])
+        if r is not None:
+            a, b = r
+            la, ca = linear(a)
+            lb, cb = linear(b)
+            d = dict(lb)
+            for k, v in la.items():
+                d[k] = d.get(k, 0) - v
+                if d[k] == 0:
+                    del d[k]
+            return d, cb - ca
     return {t: 1}, 0
+
+
+def _strip_wrappers(t):
+    """the value inside reference / `?` / unwrap / ok_or / Some-payload wrappers"""
+    while isinstance(t, tuple) and t:
+        if t[0] in ('ref', 'deref') and len(t) == 2:
+            t = t[1]
+        elif t[0] == 'field' and len(t) == 3 and t[2] == '0' and isinstance(t[1], tuple) and t[1][:1] == ('as',) and t[1][2] in ('Continue', 'Some', 'Ok'):
+            t = t[1][1]
+        elif t[0] == 'call' and isinstance(t[1], str) and t[1].endswith(('Try::branch', 'Option::ok_or', 'Option::unwrap', 'Result::unwrap', 'Option::expect', 'Result::expect', 'Option::ok_or_else')) and t[2]:
+            t = t[2][0]
+        else:
+            break
+    return t
+
+
+def _subslice_range(t):
+    t = _strip_wrappers(t)
+    if isinstance(t, tuple) and len(t) >= 3 and t[0] == 'call' and isinstance(t[1], str) and t[1].endswith(('Index::index', 'IndexMut::index_mut', '::get', '::get_mut')) and len(t[2]) == 2:
+        r = _strip_wrappers(t[2][1])
+        if isinstance(r, tuple) and r[:1] == ('agg',):
+            f = dict(r[2])
+            if r[1].endswith('ops::range::Range'):
+                return f.get('start'), f.get('end')
+            if r[1].endswith('ops::range::RangeTo'):
+                return ('const', 0), f.get('end')
+    return None
 
 
 def find_in_term(t, pred):
